@@ -22,11 +22,12 @@ Definition tree_of_value (v : value) : tree :=
   | VBytes bs => TL [TI 4; TB bs]
   | VStr bs => TL [TI 5; TB bs]
   | VText cps => TL [TI 6; TB cps]
-  | VDec p s None => TL [TI 7; TI p; TI s; TL []]
+  | VDec p s None => TL []   (* a Decimal without a value is the library's NULL of MONEYN/DECN/NUMN: printed as NULL *)
   | VDec p s (Some x) => TL [TI 7; TI p; TI s; TL [TI x]]
   | VTime t => tree_of_time t
   end.
 
+(* inputs: () is Go's nil; (7 p s ()) hands a Decimal without a value to Bytes *)
 Definition value_of_tree (t : tree) : option value :=
   match t with
   | TL [] => Some VNull
